@@ -120,6 +120,7 @@ def run(chk):
     chk.rule('R1', 'no unsynchronised access to written static-storage state on handler paths', 0)
     chk.rule('R2', 'no non-reentrant libc call on handler paths', 0)
     chk.rule('R3', 'every argument gets the owning handler\'s constraint container', 2)
+    chk.rule('R4', 'function-local statics on handler paths do not memoise per-call data', 2)
     chk.rule('INV', 'static-storage inventory and reachability (bookkeeping obligations)', 3)
     chk.rule('CTL', 'positive control: the effect rule fires on controls/static_write.cpp', 4)
 
@@ -145,6 +146,36 @@ def run(chk):
         chk.functions_analysed.add(f.name)
     chk.samples.append({'mutable_static_objects': sorted(mutable)[:20],
                         'written': sorted(written)[:20]})
+
+    # R4: no process-wide memo of per-call data - a function-local static whose initialiser uses a parameter, a
+    # local or the object is fixed by whichever handler/thread comes first and then served to all the others
+    # (no data race, but a thread no longer observes the result it would observe alone)
+    from ..facts import walk
+    n_static = 0
+    seen_decl = set()
+    for key, (f, parent) in sorted(closure.items()):
+        if f.body is None:
+            continue
+        for n_ in f.walk():
+            if n_.get('k') != 'DeclStmt':
+                continue
+            for d in n_.get('decls', []):
+                if not d.get('static') or (f.file, n_.get('l'), d['name']) in seen_decl:
+                    continue
+                seen_decl.add((f.file, n_.get('l'), d['name']))
+                n_static += 1
+                deps = []
+                if isinstance(d.get('init'), dict):
+                    for x in walk(d['init']):
+                        if x.get('k') == 'CXXThisExpr':
+                            deps.append('this')
+                        elif x.get('k') == 'DeclRefExpr' and x.get('ref', {}).get('sto') in ('param', 'local'):
+                            deps.append(x['ref']['name'])
+                chk.check(not deps, 'R4', f.name, 'function-local static %s does not memoise data of the first call'
+                          % d['name'], f.loc(n_), 'its initialiser uses %s: the value computed for the first handler '
+                          'is served to every later one; reached via %s' % (
+                              ', '.join(sorted(set(deps))), ' <- '.join(reversed(call_path(closure, key)[-4:]))))
+    chk.ok('INV', '', 'function-local statics on handler paths: %d' % n_static)
 
     # R3: setConstraintsContainer gets &mConstraints of the handler itself
     n = 0
